@@ -581,15 +581,17 @@ def rand_counter(rng, style):
 
 
 def distinct_row(rng, n, style, salt):
-    """n counters, pairwise distinct so that any swap/shift of columns is visible"""
-    if style == "tiny":
-        return [salt * 64 + i + 1 for i in range(n)]
-    while True:
-        row = [rand_counter(rng, style) for _ in range(n)]
-        if style == "small":
-            row = [salt * 64 + v * 0 + i + 1 + rng.randrange(0, 2) * 32 for i, v in enumerate(row)]
-        if len(set(row)) == n and all(v != 0 for v in row[:n]):
-            return row
+    """n non-zero counters, pairwise distinct so that any swap/shift of columns is visible"""
+    if style in ("tiny", "small"):
+        return [salt * 64 + i + 1 + (rng.randrange(0, 2) * 32 if style == "small" else 0) for i in range(n)]
+    row, seen = [], set()
+    for _ in range(n):
+        v = rand_counter(rng, style)
+        while v in seen or v == 0:
+            v += 1 + rng.randrange(0, 7)
+        seen.add(v)
+        row.append(v)
+    return row
 
 
 def gen_net_name(rng, fam):
